@@ -47,6 +47,8 @@ SHARDS = {"quick": 16, "thorough": 64}
 CLASSES = ["auto", "auto_full", "explicit", "mixed", "tags", "reuse", "deep",
            "interleaved", "crossbranch", "fragment", "reuse_fixed",
            "grow_fixed"]
+OWN_ATTRIBUTES = {"length", "fields", "field_values", "get_value", "get_mask",
+                  "add_field", "keys"}   # attribute access finds these first
 KF_KEY = "assign-fields-first-fit-fragmentation"
 KF2_KEY = "add-field-cross-level-scope-recursion"
 ANCHORS = [("rig.bitfield", "BitField._assign_field",
@@ -240,6 +242,13 @@ def gen(cls, idx, rng, tier):
         if rng.random() < .04 and sh.potential(scope):
             return rng.choice(sh.potential(scope)).name     # duplicate
         counter[0] += 1
+        if rng.random() < .05:
+            # ordinary header-field names that happen to be names of the
+            # BitField object's own attributes and methods
+            nm = rng.choice(["length", "fields", "field_values", "get_value",
+                             "get_mask", "add_field", "keys"])
+            if not any(f.name == nm for f in sh.fields):
+                return nm
         return "f%d" % counter[0]
 
     def add_one():
@@ -686,7 +695,8 @@ def run(case, ctx):
                 ok, r2 = call("re-assign", lambda: b(**{k0: assign[k0]}))
                 check(not ok and isinstance(r2, ValueError),
                       "value-reassigned", "%r given twice: %r" % (k0, r2))
-                check(getattr(b, k0) == assign[k0], "attribute-value",
+                check(k0 in OWN_ATTRIBUTES or
+                      getattr(b, k0) == assign[k0], "attribute-value",
                       "%r reads %r" % (k0, getattr(b, k0)))
             ok, r3 = call("unknown field", lambda: b(no_such_field_=1))
             check(not ok and isinstance(r3, LookupError),
